@@ -67,10 +67,10 @@ def sort_keys(ctx: core.Ctx, mods):
     return n
 
 
-def gen_pure(ctx: core.Ctx):
-    """GEN-PURE: no module-level mutable state written by functions of the generator modules"""
+def gen_pure(ctx: core.Ctx, modules=None, rule="GEN-PURE", floor=60):
+    """GEN-PURE: no module-level mutable state written by functions of the given modules"""
     n = 0
-    for m, rel in GEN_MODULES.items():
+    for m, rel in (modules or GEN_MODULES).items():
         tree = ctx.parse(rel)
         module_names = set()
         for s in tree.body:
@@ -103,11 +103,11 @@ def gen_pure(ctx: core.Ctx):
                     tgt = s.func.value
                 if isinstance(tgt, ast.Name) and tgt.id in module_names and tgt.id not in locals_:
                     probs.append((s.lineno, f"writes module-level `{tgt.id}`"))
-            ctx.oblige("GEN-PURE", f"{rel}:{f.name}", f"{len(probs)} module-state effect(s)", not probs, file=rel, func=f.name,
+            ctx.oblige(rule, f"{rel}:{f.name}", f"{len(probs)} module-state effect(s)", not probs, file=rel, func=f.name,
                        construct="module state:" + ";".join(p[1] for p in probs),
                        msg=f"{f.name} keeps state across generations ({'; '.join(p[1] + ' (line ' + str(p[0]) + ')' for p in probs)}): the bytes generated for a "
                            f"definition then depend on what was generated earlier in the same process", line=probs[0][0] if probs else None)
-    ctx.floor("GEN-PURE", n, 60, "functions of the generator modules examined")
+    ctx.floor(rule, n, floor, "functions examined for module-level state")
 
 
 def fmt_rule(ctx: core.Ctx):
